@@ -74,7 +74,8 @@ def _do_parse(fs: simfs.SimFS, op: dict[str, Any], data: bytes, name: str,
         fp = simfs.make_reader(kind, data, encoding=op.get("encoding") or "utf-8",
                                newline=op.get("newline"), chunk=int(tape.get("chunk") or 7),
                                fail_at=int(rf["at"]) if rf else None,
-                               fail_exc=rf["exc_obj"] if rf else None)
+                               fail_exc=rf["exc_obj"] if rf else None,
+                               fail_consume=int(rf.get("consume") or 0) if rf else 0)
         if rf:
             rf["reader"] = fp
     if selp is None:
